@@ -16,6 +16,11 @@ def toList : E → List E
   | .cons h t => h :: toList t
   | _ => []
 
+/-- `And`/`Or` have at least two arguments -/
+def twoPlus : E → Bool
+  | .cons _ (.cons _ _) => true
+  | _ => false
+
 def wf : Srt → E → Bool
   | s, .sym n _ => s != .P && n != "True" && n != "False"
   | s, .int _ => s == .A
@@ -26,7 +31,7 @@ def wf : Srt → E → Bool
   | s, .add a | s, .mul a | s, .fn _ a => s == .A && isList a && wf .A a
   | s, .pow b x => s == .A && !isList b && !isList x && wf .A b && wf .A x
   | s, .rel r a b => s == .B && !isList a && !isList b && ((wf .A a && wf .A b) || ((r == .eq || r == .ne) && wf .B a && wf .B b))
-  | s, .and a | s, .or a => s == .B && isList a && wf .B a
+  | s, .and a | s, .or a => s == .B && isList a && wf .B a && twoPlus a
   | s, .pw ps => s == .A && isList ps && wf .P ps
   | s, .pair v c => s == .P && !isList v && !isList c && wf .A v && wf .B c
   | _, .other _ => true
